@@ -667,6 +667,11 @@ func (zp *ZoneParser) Next() (RR, bool) {
 					return nil, false
 				}
 
+				if zp.c.l.err {
+					// The lexer found a syntax error that nobody looked at.
+					return zp.setParseError(zp.c.l.token, zp.c.l)
+				}
+
 				return rr, true
 			} else if l.value == zNewline {
 				return zp.setParseError("unexpected newline", l)
@@ -701,6 +706,11 @@ func (zp *ZoneParser) Next() (RR, bool) {
 			if zp.c.Err() != nil {
 				// The input failed in the middle of this record.
 				return nil, false
+			}
+
+			if zp.c.l.err {
+				// The lexer found a syntax error that the RDATA parser skipped.
+				return zp.setParseError(zp.c.l.token, zp.c.l)
 			}
 
 			return rr, true
